@@ -24,7 +24,7 @@ TRUSTED = ['Lean 4.33 kernel', 'axioms: propext, Classical.choice, Quot.sound', 
            'numpy.linalg.eigvalsh / matrix_rank in the probe (contract)',
            'modelled, not verified: numqi/state/_internal.py, entangle/upb.py, dicke.py, utils.get_tetrahedron_POVM, unique_determine.get_chebshev_orthonormal',
            'literature, not proved: unextendibility of the UPBs; optimality of the closed-form REE/EOF/GME values']
-OPEN_STATEMENTS = ['Numqi.C18.ChebyshevOrthonormal.Statement', 'Numqi.C18.DickeNormalised.Statement']
+OPEN_STATEMENTS = []   # round 2: Dicke normalisation and Chebyshev orthonormality are theorems now
 
 
 def f2b(x):
